@@ -367,6 +367,10 @@ func updateConfigFile() {
 		value := slip.UserPkg.JustGet(key)
 		p := *slip.DefaultPrinter()
 		p.Readably = true
+		// The file is read back with the default *read-base* so always write
+		// numbers in base 10 no matter what *print-base* currently is.
+		p.Base = 10
+		p.Radix = false
 		b = fmt.Appendf(b, "(setq %s ", key)
 		if list, ok := value.(slip.List); ok && 0 < len(list) {
 			b = append(b, '\'')
